@@ -94,7 +94,7 @@ def run(tier, seed):
     if not chk.build():
         return chk.finish({"evaluations": 0, "distinct_nontrivial": 0, "rule": "", "samples": []})
     quick = tier == "quick"
-    max_symbols = 3 if quick else 4
+    max_symbols = 4 if quick else 5
     cov = {"evaluations": 0, "distinct_nontrivial": 0, "samples": [], "streams": {}, "exhaustive": True}
     shards = fan_out(_strings_shard, max_symbols=max_symbols)
     st = {"evaluations": 0, "strings": 0, "errors_expected": 0}
